@@ -30,6 +30,109 @@ SIMPLE = ["bool", "int", "int8", "int16", "int32", "int64", "uint", "uint8", "ui
 OPTS = ["", "", "", ",omitempty", ",omitzero", ",omitempty,omitzero"]
 
 
+# the families of gen_families of the last gen_decls call: family -> bank names (see gen_families)
+FAMILIES = {}
+
+
+def gen_families(rng, count):
+    """Declared struct types at the corners of encoding/json's field selection that lie INSIDE the domain (the library agrees with
+    encoding/json on them) but that the main generator above deliberately stays away from. Returns (lines, families); `count`
+    variants per family, every choice from `rng` (a generator of its own: the declarations above do not depend on these).
+
+    inline        an embedded struct (value / pointer) whose json tag has options but NO name (`json:",inline"`, `json:",omitempty"`,
+                  `json:""`, `json:","` ...): encoding/json still promotes its fields; only a tag NAME makes it an ordinary field (D16)
+    clash         two fields at the SAME depth with one JSON name, one by its Go name (untagged or name-less tag), the other renamed
+                  onto it by its tag and declared LATER (directly, or through two embedded structs, or below a further embedding):
+                  encoding/json keeps the tagged one, and so does For (the last declared one)
+    clash_d14     the same with the tagged field declared FIRST, or optional: For and encoding/json differ (known finding D14)
+    diamond       one struct reached along two embedding paths of EQUAL depth: its fields are ambiguous, encoding/json drops them
+    diamond_near  the neighbours: the same structs along one path only, and at two different depths (the shallower one wins)"""
+    lines = []
+    fam = {"inline": [], "clash": [], "clash_d14": [], "diamond": [], "diamond_near": []}
+    kinds = {"string": ["string", "MyString", "*string"], "integer": ["int", "int64", "uint8", "int16", "MyInt", "*int32"],
+             "boolean": ["bool", "MyBool"], "array": ["[]int", "[2]bool", "[]string"], "object": ["Inner", "map[string]int", "Empty"]}
+    nameless = [",inline", ",omitempty", ",omitzero", "", ",", ",omitempty,omitzero", ",inline,omitempty"]
+
+    def decl(name, fields):
+        lines.append("type %s struct {" % name)
+        lines.extend("\t" + f for f in fields)
+        lines.append("}")
+        lines.append("")
+
+    def wrap(name, emb):
+        return ("*" if emb else "") + name
+
+    for i in range(count):
+        # ---- inline
+        base = "GenIn%dB" % i
+        bf = []
+        for g in rng.sample(["Kind", "Version", "By", "At"], rng.randint(1, 3)):
+            t = rng.choice(SIMPLE[:26])
+            bf.append(rng.choice(['%s %s `json:"%s"`' % (g, t, g.lower()), '%s %s `json:"%s,omitempty"`' % (g, t, g.lower()), '%s %s' % (g, t)]))
+        decl(base, bf)
+        own = ['%s %s `json:"%s%s"`' % (g, rng.choice(SIMPLE[:26]), g.lower(), rng.choice(OPTS)) for g in rng.sample(["Name", "N", "Z", "Wide"], rng.randint(0, 3))]
+        emb = rng.choice([base, base, "*" + base, rng.choice(["Inner", "*Inner", "IDt"])])
+        own.insert(rng.randint(0, len(own)), '%s `json:"%s"`' % (emb, rng.choice(nameless)))
+        decl("GenIn%d" % i, own)
+        fam["inline"].append("GenIn%d" % i)
+        if rng.random() < 0.5:
+            decl("GenIn%dN" % i, ['Outer GenIn%d `json:"outer"`' % i, 'List []%sGenIn%d' % (rng.choice(["", "*"]), i)])
+            fam["inline"].append("GenIn%dN" % i)
+        # ---- clash
+        for order in ("clash", "clash_d14"):
+            nm = "GenCl%d%s" % (i, "" if order == "clash" else "K")
+            jn = rng.choice(["Name", "ID", "Key", "Val"])
+            k1, k2 = rng.sample(sorted(kinds), 2)
+            t1, t2 = rng.choice(kinds[k1]), rng.choice(kinds[k2])
+            plain = rng.choice(['%s %s' % (jn, t1), '%s %s' % (jn, t1), '%s %s `json:",omitempty"`' % (jn, t1), '%s %s `jsonschema:"the %s"`' % (jn, t1, jn)])
+            topt = ""
+            if order == "clash_d14" and rng.random() < 0.3:
+                topt = rng.choice([",omitempty", ",omitzero"])
+            tagged = 'Alias%d %s `json:"%s%s"`' % (i, t2, jn, topt)
+            first_tagged = order == "clash_d14" and (not topt or rng.random() < 0.5)
+            if rng.random() < 0.5:
+                fs = [tagged, plain] if first_tagged else [plain, tagged]
+                if rng.random() < 0.6:
+                    fs.insert(rng.randint(0, 2), "Other bool")
+                if rng.random() < 0.3:
+                    fs.append('Rev uint16 `json:"rev,omitempty"`')
+                decl(nm, fs)
+            else:
+                decl(nm + "L", [plain] + (['Note string `json:"note,omitempty"`'] if rng.random() < 0.5 else []))
+                decl(nm + "C", [tagged])
+                l, c = wrap(nm + "L", rng.random() < 0.3), wrap(nm + "C", rng.random() < 0.3)
+                fs = [c, l] if first_tagged else [l, c]
+                fs.insert(rng.randint(0, 2), 'Rev uint16 `json:"rev"`')
+                decl(nm, fs)
+            fam[order].append(nm)
+            if rng.random() < 0.4:
+                decl(nm + "E", [wrap(nm, rng.random() < 0.6), 'Tags []string `json:"tags"`'])
+                fam[order].append(nm + "E")
+        # ---- diamond
+        d = "GenDm%d" % i
+        mf = []
+        for g, ts in rng.sample([("ID", ["int64", "string", "MyInt"]), ("Rev", ["uint8", "int", "bool"]), ("Stamp", ["string", "*int", "[]int"])], rng.randint(1, 2)):
+            t = rng.choice(ts)
+            mf.append(rng.choice(['%s %s' % (g, t), '%s %s `json:"%s"`' % (g, t, g.lower()), '%s %s `json:"%s,omitempty"`' % (g, t, g.lower()),
+                                  '%s %s `json:",omitempty"`' % (g, t), '%s %s `json:"%s,omitzero"`' % (g, t, g.lower())]))
+        decl(d + "M", mf)
+        decl(d + "L", [wrap(d + "M", rng.random() < 0.3), rng.choice(['By string', 'By string `json:"by"`', 'By *string `json:"by,omitempty"`'])])
+        decl(d + "R", [rng.choice(['At string `json:"at"`', 'At int64']), wrap(d + "M", rng.random() < 0.3)])
+        fs = [wrap(d + "L", rng.random() < 0.25), wrap(d + "R", rng.random() < 0.25)]
+        rng.shuffle(fs)
+        if rng.random() < 0.7:
+            fs.insert(rng.randint(0, 2), rng.choice(['Title string', 'Title string `json:"title,omitempty"`']))
+        decl(d, fs)
+        fam["diamond"].append(d)
+        if rng.random() < 0.4:
+            decl(d + "E", [wrap(d, rng.random() < 0.5), 'Tags []string `json:"tags"`'])
+            fam["diamond"].append(d + "E")
+        decl(d + "S", [wrap(d + "L", rng.random() < 0.3), 'Title string'])
+        decl(d + "T", [d + "M", d + "R"] if rng.random() < 0.5 else [d + "R", d + "M"])
+        fam["diamond_near"] += [d + "S", d + "T"]
+    return lines, fam
+
+
 def gen_decls(rng, count):
     """Returns (go source text, infos, locals). infos[i] = {"name", "fields": [...], "embeds": [names], "promoted": set of Go names,
     "redeclared": bool, "depth": int}; locals = lists of bank names of DIFFERENT struct types that share name and package path.
@@ -155,10 +258,16 @@ def gen_decls(rng, count):
             lines.append("func local%s() reflect.Type { type %s struct { %s }; return reflect.TypeFor[%s]() }" % (bname, tn, body, tn))
             variants.append(bname)
         locs.append(variants)
+    flines, fams = gen_families(random.Random(rng.random()), max(3, count // 8))
+    lines += flines
+    FAMILIES.clear()
+    FAMILIES.update(fams)
     lines.append("")
     lines.append("func init() {")
     for x in infos:
         lines.append('\tbank["%s"] = reflect.TypeFor[%s]()' % (x["name"], x["name"]))
+    for n in sorted({n for ns in fams.values() for n in ns}):
+        lines.append('\tbank["%s"] = reflect.TypeFor[%s]()' % (n, n))
     for vs in locs:
         for b in vs:
             lines.append('\tbank["%s"] = local%s()' % (b, b))
